@@ -7,6 +7,19 @@ side conditions it checked, and an optimal alignment validated by `Viterbi.pathS
 namespace Driver.C02
 open SSVerif.Viterbi SSVerif.FlatNet SSVerif.Hmm SSVerif.Generated.Search Driver
 
+/-- a node of the real lextree as dumped by the harness -/
+structure XNode where
+  ssid : Nat
+  tmat : Nat
+  logp : Int
+  ciExt : Nat
+  ppos : Nat
+  leaf : Bool
+  arc : Int
+  /-- `none` = all contexts -/
+  ctxt : Option (List Nat)
+deriving Inhabited
+
 structure Case where
   id : String := ""
   nci : Nat := 0
@@ -30,6 +43,9 @@ structure Case where
   sens : Array Nat := #[]
   frames : Array (Array Int) := #[]
   exitFrame : Int := -1
+  xn : Array (Nat × XNode) := #[]
+  xr : Array (List Nat) := #[]
+  xc : Array (Nat × List Nat) := #[]
   bad : List String := []
 
 def natsOf (ws : List String) : Option (List Nat) := ws.mapM parseNat
@@ -97,6 +113,20 @@ def feed (c : Case) (ws : List String) : Case :=
     match parseInt ef with
     | some ef => { c with exitFrame := ef }
     | none => err "R"
+  | ["XN", id, ss, tm, lp, ci, pp, lf, arc, ctxt] =>
+    match parseNat id, parseNat ss, parseNat tm, parseInt lp, parseNat ci, parseNat pp, parseInt arc,
+          (if ctxt == "ALL" then some none else if ctxt == "-" then some (some []) else (natsOf (ctxt.splitOn ",")).map some) with
+    | some id, some ss, some tm, some lp, some ci, some pp, some arc, some cx =>
+      { c with xn := c.xn.push (id, { ssid := ss, tmat := tm, logp := lp, ciExt := ci, ppos := pp, leaf := lf == "1", arc := arc, ctxt := cx }) }
+    | _, _, _, _, _, _, _, _ => err "XN"
+  | "XR" :: _s :: ids =>
+    match natsOf ids with
+    | some ids => { c with xr := c.xr.push ids }
+    | none => err "XR"
+  | "XC" :: id :: ids =>
+    match parseNat id, natsOf ids with
+    | some id, some ids => { c with xc := c.xc.push (id, ids) }
+    | _, _ => err "XC"
   | "error" :: rest => err ("harness:" ++ sepBy "_" rest)
   | _ => c
 
@@ -194,6 +224,68 @@ def segments (insts : Array Inst) (wordStr : Array String) (arcs : Array Arc) (s
   | [] => "-"
   | s :: rest => sepBy "," (go rest 1 s 0 [])
 
+/-! ### structural correspondence with the real lextree (untrusted driver code)
+
+Both sides are expanded to *unshared word paths*: (arc, left context, right context, phones presented to the
+neighbours, per-position (ssid, tmat, entry penalty)).  The lextree side enumerates every root-to-leaf path of
+the dumped tree and one copy per context phone of the root's / leaf's context set; the model side takes the
+instances of `FlatNet.build`. -/
+
+def showCtx : Option Nat → String
+  | none => "*"
+  | some x => toString x
+
+def pathKey (arc : Nat) (lc rc : Option Nat) (extR extL : Nat) (nodes : List (Nat × Nat × Int)) : String :=
+  s!"arc{arc}/lc{showCtx lc}/rc{showCtx rc}/ext{extR}.{extL}/" ++
+    sepBy "," (nodes.map fun (ss, tm, e) => s!"{ss}:{tm}:{e}")
+
+partial def lexPaths (nodes : Array (Option XNode)) (kids : Array (Option (List Nat))) (fuel : Nat) (id : Nat)
+    (pre : List XNode) : List (List XNode) :=
+  match look nodes id with
+  | none => []
+  | some n =>
+    if n.leaf then [(n :: pre).reverse]
+    else if fuel == 0 then []
+    else ((look kids id).getD []).flatMap fun k => lexPaths nodes kids (fuel - 1) k (n :: pre)
+
+def lexKeys (c : Case) : List String :=
+  let nodes := tableOf c.xn
+  let kids := tableOf c.xc
+  let paths := c.xr.toList.flatMap fun roots => roots.flatMap fun r => lexPaths nodes kids 64 r []
+  paths.flatMap fun p =>
+    match p.head?, p.getLast? with
+    | some r, some l =>
+      let lcs : List (Option Nat) := match r.ctxt with | none => [none] | some cs => cs.map some
+      -- a single-phone word / filler leaves to every right context (fsg_search_pnode_exit)
+      let rcs : List (Option Nat) := if p.length == 1 then [none] else match l.ctxt with | none => [none] | some cs => cs.map some
+      lcs.flatMap fun lc => rcs.map fun rc =>
+        pathKey l.arc.toNat lc rc r.ciExt l.ciExt (p.map fun n => (n.ssid, n.tmat, n.logp))
+    | _, _ => []
+
+def flatKeys (insts : Array Inst) : List String :=
+  let l := insts.toList
+  let arcs := l.foldl (fun acc h => insertNat h.arc acc) []
+  arcs.flatMap fun a =>
+    let mine := l.filter (·.arc == a)
+    let roots := mine.filter (·.isRoot)
+    let leaves := mine.filter (·.isLeaf)
+    let inner := (mine.filter fun h => !h.isRoot && !h.isLeaf).toArray.qsort (fun x y => x.pos < y.pos) |>.toList
+    let nd (h : Inst) : Nat × Nat × Int := (h.ssid, h.tmat, h.entry)
+    roots.flatMap fun r =>
+      if r.isLeaf then [pathKey a r.lc r.rc r.ciExt r.ciExt [nd r]]
+      else leaves.filter (fun f => !f.isRoot) |>.map fun f =>
+        pathKey a r.lc f.rc r.ciExt f.ciExt ((nd r :: inner.map nd) ++ [nd f])
+
+def sortStr (l : List String) : List String := (l.toArray.qsort (· < ·)).toList
+
+/-- (equal?, first key only in the lextree, first key only in the model) -/
+def lexCompare (c : Case) (insts : Array Inst) : Bool × String × String :=
+  let a := sortStr (lexKeys c)
+  let b := sortStr (flatKeys insts)
+  let onlyA := a.filter fun k => !b.contains k
+  let onlyB := b.filter fun k => !a.contains k
+  (a == b, onlyA.headD "-", onlyB.headD "-")
+
 def finish (c : Case) : String := Id.run do
   if !c.bad.isEmpty then return s!"case {c.id} error {sepBy ";" c.bad.reverse}"
   let ssidT := tableOf c.ssid
@@ -240,10 +332,11 @@ def finish (c : Case) : String := Id.run do
       | none => (opt.isNone, "-")
       | some (s0, c0, steps, cx) =>
         (pathScore N em T s0 c0 steps cx == opt && opt.isSome, segments insts c.wordStr c.arcs (s0 :: steps.map (fun (e : Nat × Int) => e.1)))
+    let (lexOK, lexA, lexB) := if c.xn.isEmpty then (true, "-", "-") else lexCompare c insts
     let showO : Option Int → String := fun o => match o with | none => "none" | some v => toString v
     return s!"case {c.id} opt {showO opt} optef {showO optEf} empty {showO (best ((hops M M.start M.final).map some))} T {T} states {L.n} edges {N.edges.length} consts {c.constsOK} data {dataOK} " ++
       s!"fillerflags {!c.fillerMismatch} labels {labelsOK M L} closed {nullClosed M} monotone {monotone} skipcons {skipCons} agree {r.opt == opt} " ++
-      s!"spread {r.spread} minval {showO r.minval} beam {c.beam} pathok {pathok} align {segs}"
+      s!"lextree {lexOK} lexonly {lexA} flatonly {lexB} spread {r.spread} minval {showO r.minval} beam {c.beam} pathok {pathok} align {segs}"
 
 /-- unit ops: `hmm …` runs the model's `hmmStep`, `hist …` folds the model's `HistDom.add` -/
 def unitOp (ws : List String) : Option String :=
@@ -259,6 +352,18 @@ def unitOp (ws : List String) : Option String :=
       let h : St := ⟨stv.getD 0 0, stv.getD 1 0, stv.getD 2 0, stv.getD 3 0, worstScore⟩
       let r := hmmStep tp e h
       some s!"hmm {r.s0} {r.s1} {r.s2} {r.out} {r.best}"
+    | none => some "bad-op"
+  | "hmm5" :: rest =>
+    match intsOf rest with
+    | some vals =>
+      if vals.length != 41 then some "bad-op" else
+      let tp := (vals.take 30).map Int.toNat
+      let sen := (vals.drop 30).take 5
+      let stv := vals.drop 35
+      let e : Nat → Int := fun k => - sen.getD k 0
+      let h : St5 := ⟨stv.getD 0 0, stv.getD 1 0, stv.getD 2 0, stv.getD 3 0, stv.getD 4 0, stv.getD 5 0, worstScore⟩
+      let r := hmmStep5 tp e h
+      some s!"hmm5 {r.s0} {r.s1} {r.s2} {r.s3} {r.s4} {r.out} {r.best}"
     | none => some "bad-op"
   | "hist" :: _k :: rest =>
     let rec parse (l : List String) (acc : List SSVerif.HistDom.Entry) : Option (List SSVerif.HistDom.Entry) :=
